@@ -303,7 +303,8 @@ ENTRY_VARIANTS = ['empty @is_you(%s)', 'int @is_you(%s)', 'empty is_you(%s)', 'e
 
 def shards(tier):
     return [('text', 0), ('ascii', 0), ('ascii', 1), ('soup', 0), ('soup', 1), ('mut_corpus', 0), ('mut_corpus', 1), ('mut_corpus', 2),
-            ('mut_gen', 0), ('mut_gen', 1), ('mut_gen', 2), ('programs', 0), ('programs', 1), ('illformed', 0), ('illformed', 1), ('options', 0)]
+            ('mut_gen', 0), ('mut_gen', 1), ('mut_gen', 2), ('programs', 0), ('programs', 1), ('illformed', 0), ('illformed', 1), ('options', 0),
+            ('nesting', 0)]
 
 
 def opt_strategy():
@@ -366,6 +367,36 @@ def run_shard(desc, seed, tier):
                                     st.one_of(st.none(), st.none(), st.sampled_from(ENTRY_VARIANTS)), st.integers(0, 3)).map(build),
                           opt_strategy())
         search(strat, chk, seed=sd, max_examples=900 * scale, stats=stats, to_case=to_case)
+    elif kind == 'nesting':
+        # every nesting construct at every depth up to the stated bound (30); CLI (default recursion limit) at the bound
+        def nests(d):
+            return {
+                'parens': 'empty @is_you() { write(' + '(' * d + '1' + ')' * d + '); }',
+                'unary': 'empty @is_you() { write(' + '- ' * d + '1); }',
+                'not': 'empty @is_you() { write(' + 'not ' * d + 'true); }',
+                'blocks': 'empty @is_you() { ' + '{ ' * d + 'write(1); ' + '} ' * d + '}',
+                'ifs': 'empty @is_you() { ' + 'if (true) { ' * d + 'write(1); ' + '} ' * d + '}',
+                'elseif': 'empty @is_you(int x) { ' + ''.join('if (x == %d) { write(%d); } else ' % (k, k) for k in range(d)) + '{ write(0); } }',
+                'loops': 'empty @is_you() { ' + 'while (false) { ' * d + 'break; ' + '} ' * d + '}',
+                'index': 'int[] a = [0]; empty @is_you() { write(' + 'a[' * d + '0' + ']' * d + '); }',
+                'calls': 'int f(int x) { return x; } empty @is_you() { write(' + 'f(' * d + '0' + ')' * d + '); }',
+                'arrays': 'empty @is_you() { write(' + '[' * d + '1' + ']' * d + '.length); }',
+                'tries': 'empty @is_you() { ' + 'try { write(1); } undo { ' * d + 'write(2); ' + '} ' * d + '}',
+                'preempts': 'empty @is_you() { try { ' + 'preempt { ' * d + 'write(1); ' + '} ' * d + '} undo { } }',
+                'casts': 'empty @is_you() { write(' + '(' * d + '1' + ' is byte)' * d + '); }',
+                'speculation': 'empty @is_you() { int x = ' + '(' * d + '1' + ') + 1' * d + ' ?? 2; }',
+            }
+        for d in list(range(1, 31)):
+            for name, src in nests(d).items():
+                try:
+                    m = check_input(stats, src, 16, 500, False, d % 2 == 0, 0 if d >= 27 else 50)
+                except Discard as dd:
+                    stats.discard(dd.why)
+                    continue
+                if m:
+                    stats.violation({'kind': 'input', 'text': src, 'opts': [16, 500, False, d % 2 == 0, 0 if d == 30 else 50], 'message': m[1], 'signature': m[0] + ':nesting:' + name})
+        stats.sample({'kind': 'nesting', 'constructs': sorted(nests(1)), 'depths': '1..30'})
+        stats.exhaustive = True
     elif kind == 'options':
         # every option combination on the example corpus (CLI always)
         rnd = random.Random(sd)
